@@ -241,5 +241,119 @@ def _eq(a, b):
     return Eq(a, b)
 
 
-TARGETS = [ApplyReplicate(), CompileReplica()]
+class CompileAggregate(Target):
+    """'an aggregating component consumes ALL copies, in index order': FlowIR.compile_component_aggregate on concrete
+    component texts (bounded: the regular expression it builds from the reference needs concrete names)."""
+    prop = 'C03'
+    name = 'FlowIR.compile_component_aggregate'
+    file = F
+    qualname = 'FlowIR.compile_component_aggregate'
+    inline_class = {'cls': (F, 'FlowIR')}
+    inline = {'FlowIR.compile_reference': (F, 'FlowIR.compile_reference', 'cls'),
+              'FlowIR.replace_strings': (F, 'FlowIR.replace_strings', 'cls')}
+    compare_return = False
+    trusted = ["re (native, on concrete strings)", "FlowIR.replace_strings applies the function to every string leaf"]
+    assumptions = ["BOUNDED: concrete names; replica count 1..3; the reference mentioned in its absolute or relative spelling, "
+                   "bare, followed by a path, or by a path and a comma; an unrelated reference next to it"]
+
+    def setup(self, c):
+        count = 1 + c.choice('count', 3)
+        spelling = c.one_of('spelling', ['stage0.Prod:ref', 'Prod:ref'])
+        tail = c.one_of('tail', ['', '/out.txt', '/dir/out.csv,'])
+        comp = {'name': 'Agg', 'stage': 1, 'references': ['stage0.Prod:ref', 'stage0.Other:copy'],
+                'command': {'executable': 'gather', 'arguments': '-i %s%s --also Other:copy plain' % (spelling, tail)},
+                'variables': {'note': 'untouched text'}}
+        cls = Obj('FlowIR')
+        import copy
+        return State(args=[cls, comp, count, ['stage0.Prod:ref']], count=count, spelling=spelling, tail=tail, comp=comp, cls=cls,
+                     before=copy.deepcopy(comp))
+
+    def real_function(self):
+        return FlowIR.compile_component_aggregate.__func__
+
+    def ensures(self, c, st, out):
+        if out.kind == 'raise':
+            return [('no-exception', False)]
+        res = out.value
+        copies = ['stage0.Prod%d:ref' % i for i in range(st.count)]
+        sep, path = ' ', st.tail
+        if path.endswith(','):
+            sep, path = ',', path[:-1]
+        want_args = '-i %s --also Other:copy plain' % sep.join(x + path for x in copies)
+        return [('references-list-every-copy-in-index-order', res['references'] == copies + ['stage0.Other:copy']),
+                ('arguments-mention-every-copy-in-index-order', res['command']['arguments'] == want_args),
+                ('everything-else-is-unchanged', res['variables'] == st.before['variables'] and res['name'] == 'Agg'
+                 and res['command']['executable'] == 'gather'),
+                ('the-template-is-not-modified', st.comp == st.before)]
+
+    def cross_compare(self, *a):
+        return []
+
+
+class GraphEdges(Target):
+    """'every reference in the result names a component that exists / copy i consumes from copy i' is what the GRAPH is
+    built from: WorkflowGraph._createCompleteGraph adds the edge producer -> consumer for exactly the component references
+    of each (expanded) component -- relative spellings resolved against the consumer's stage, files and application
+    dependencies skipped, a producer referenced twice giving one edge."""
+    prop = 'C03'
+    name = 'WorkflowGraph._createCompleteGraph[edges]'
+    file = 'python/experiment/model/graph.py'
+    qualname = 'WorkflowGraph._createCompleteGraph'
+    pure = ('DataReference', 'ComponentIdentifier', 'FlowIR.ParseDataReferenceFull',
+            'experiment.model.frontends.flowir.FlowIR.ParseDataReferenceFull')
+    compare_return = False
+    trusted = ["networkx DiGraph (native)", "graph.DataReference / ComponentIdentifier (C09: bounded stand-in) on concrete strings",
+               "CreateNode adds the node of the component"]
+    assumptions = ["BOUNDED: an expanded workflow of 3 replicas of a producer, 3 replicas of a consumer (copy i references "
+                   "copy i in the relative or absolute spelling, twice), an aggregator referencing all copies, a direct file "
+                   "reference and a reference to a component that does not exist"]
+
+    def setup(self, c):
+        import experiment.model.graph as graph_mod
+        relative = c.one_of('consumer_spelling', ['absolute', 'relative'])
+        comps = {}
+        for i in range(3):
+            comps[(0, 'P%d' % i)] = {'stage': 0, 'name': 'P%d' % i, 'references': [], 'workflowAttributes': {'aggregate': False, 'replicate': 3}}
+            ref = ('stage0.P%d' % i) if relative == 'absolute' else ('P%d' % i)
+            comps[(0 if relative == 'relative' else 1, 'C%d' % i)] = {
+                'stage': 0 if relative == 'relative' else 1, 'name': 'C%d' % i,
+                'references': ['%s:ref' % ref, '%s/out.txt:copy' % ref, 'data/input.txt:copy', 'stage5.Ghost:ref'],
+                'workflowAttributes': {'aggregate': False, 'replicate': 3}}
+        cstage = 0 if relative == 'relative' else 1
+        comps[(2, 'A')] = {'stage': 2, 'name': 'A', 'references': ['stage%d.C%d/out.txt:copy' % (cstage, i) for i in range(3)],
+                           'workflowAttributes': {'aggregate': True, 'replicate': None}}
+        conc = Obj('concrete', get_component_identifiers=Extern('get_component_identifiers', lambda c, f=False: list(comps)),
+                   get_component_configuration=Extern('get_component_configuration', lambda c, cid, **k: comps[cid]))
+        conf = Obj('conf', get_application_dependencies=Extern('get_application_dependencies', lambda c: []), top_level_folders=['data'])
+        this = Obj('workflowgraph', _concrete=conc, configuration=conf, _placeholders={}, inherit_attributes=[],
+                   map_placeholders_to_looped_instances_of_components=Extern('map_placeholders', lambda c: None),
+                   update_dowhile_states=Extern('update_dowhile_states', lambda c: None))
+        return State(args=[this], kwargs={}, comps=comps, cstage=cstage)
+
+    def externs(self, c, st):
+        import experiment.model.graph as graph_mod
+
+        def create_node(c, wg, g, name, stage_index, is_replicate, is_blueprint, is_aggregate, isPrimitive=False):
+            cid = graph_mod.ComponentIdentifier(name, stage_index)
+            g.add_node(cid.identifier, stageIndex=stage_index)
+            return Obj('node-spec', rawDataReferences=list(st.comps[(stage_index, name)]['references']), identification=cid)
+        return {'CreateNode': Extern('CreateNode', create_node)}
+
+    def ensures(self, c, st, out):
+        if out.kind == 'raise':
+            return [('no-exception', False)]
+        g = out.value
+        want = set()
+        for i in range(3):
+            want.add(('stage0.P%d' % i, 'stage%d.C%d' % (st.cstage, i)))
+            want.add(('stage%d.C%d' % (st.cstage, i), 'stage2.A'))
+        got = set(g.edges())
+        return [('copy-i-depends-on-copy-i-and-the-aggregator-on-every-copy', got == want),
+                ('no-node-for-things-that-are-not-components', set(g.nodes()) == {'stage%d.%s' % k for k in st.comps})]
+
+    def cross_compare(self, *a):
+        return []
+
+
+TARGETS = [ApplyReplicate(), CompileReplica(), CompileAggregate(), GraphEdges()]
 LEMMAS = []
